@@ -119,6 +119,58 @@ struct RefInfo {
     /// surface (two sheets closer than one cell): the sign lattice the mesher
     /// samples cannot represent the shape at this depth
     resolved: bool,
+    /// Some(level) if the sign lattice of octree level `level` (cells of edge
+    /// 2 / 2^level) has a face whose corner signs alternate around it
+    ambiguous_face: Option<u8>,
+    /// the shape's value is (within 1e-6) zero at a lattice point of the
+    /// finest octree level: the surface passes through a cell corner
+    zero_on_lattice: bool,
+}
+
+/// Looks for a lattice face with alternating corner signs at any octree level
+/// up to `depth` (values within 1e-6 of zero count as either sign)
+fn ambiguous_face(f: &dyn Fn([f64; 3]) -> f64, depth: u8) -> (Option<u8>, bool) {
+    let n = 1usize << depth;
+    let g = n + 1;
+    let mut v = vec![0.0f64; g * g * g];
+    let idx = |i: usize, j: usize, k: usize| (i * g + j) * g + k;
+    let h = 2.0 / n as f64;
+    for i in 0..g {
+        for j in 0..g {
+            for k in 0..g {
+                v[idx(i, j, k)] = f([-1.0 + i as f64 * h, -1.0 + j as f64 * h, -1.0 + k as f64 * h]);
+            }
+        }
+    }
+    const TOL: f64 = 1e-6;
+    let zero = v.iter().any(|x| x.abs() < TOL);
+    let filled = |x: f64| x < TOL;
+    let empty = |x: f64| x > -TOL;
+    for level in 1..=depth {
+        let step = n >> level;
+        let m = 1usize << level;
+        for axis in 0..3 {
+            for a in 0..=m {
+                for b in 0..m {
+                    for c in 0..m {
+                        let at = |db: usize, dc: usize| -> f64 {
+                            let (pa, pb, pc) = (a * step, (b + db) * step, (c + dc) * step);
+                            match axis {
+                                0 => v[idx(pa, pb, pc)],
+                                1 => v[idx(pc, pa, pb)],
+                                _ => v[idx(pb, pc, pa)],
+                            }
+                        };
+                        let (p00, p10, p11, p01) = (at(0, 0), at(1, 0), at(1, 1), at(0, 1));
+                        if (filled(p00) && filled(p11) && empty(p10) && empty(p01)) || (empty(p00) && empty(p11) && filled(p10) && filled(p01)) {
+                            return (Some(level), zero);
+                        }
+                    }
+                }
+            }
+        }
+    }
+    (None, zero)
 }
 
 /// Checks that the surface lies strictly inside the meshing region and
@@ -216,7 +268,8 @@ fn reference(p: &Prog, m: &Matrix4<f32>, depth: u8) -> Option<RefInfo> {
     let det = m64.fixed_view::<3, 3>(0, 0).determinant().abs();
     // linear scale factor for areas (geometric mean of the scaling)
     let lin = det.powf(2.0 / 3.0);
-    Some(RefInfo { volume: inside as f64 * h * h * h * det, area: crossings as f64 * h * h * lin, resolved })
+    let (amb, zero_on_lattice) = ambiguous_face(&|w| value(p, to_model(w)), depth);
+    Some(RefInfo { volume: inside as f64 * h * h * h * det, area: crossings as f64 * h * h * lin, resolved, ambiguous_face: amb, zero_on_lattice })
 }
 
 struct MeshStats {
@@ -283,6 +336,10 @@ fn mesh_case<F: Backend + RenderHints>(
     };
     // input class used in violation signatures
     let class = match &info {
+        Some(i) if i.ambiguous_face.is_some() => {
+            cx.add("shapes_with_an_ambiguous_lattice_face", 1);
+            " [the sign lattice of some octree level has a face with alternating corner signs]"
+        }
         Some(i) if !i.resolved => {
             cx.add("shapes_under_resolved_at_this_depth", 1);
             " [under-resolved: two surface sheets within one cell edge]"
@@ -336,7 +393,7 @@ fn mesh_case<F: Backend + RenderHints>(
                 let cell = 2.0f64.powi(1 - depth as i32) * 1.25;
                 let area = st.area.max(info.as_ref().map(|i| i.area).unwrap_or(0.0));
                 let tol = 0.5 * area * cell + 1e-3;
-                if vref > 0.0 && mesh.triangles.is_empty() && vref > 8.0 * cell.powi(3) {
+                if mesh.triangles.is_empty() && vref > tol.max(8.0 * cell.powi(3)) {
                     cx.violation(
                         format!("{} mesh: empty although the shape has volume{class}", F::NAME),
                         desc(),
